@@ -115,23 +115,23 @@ func (f *pwFix) svc(strong bool) *tenant.Service {
 var pw72 = strings.Repeat("Aa1!", 18)
 
 var passwordPool = []string{
-	"abcdefgh",        // minimum length, one class
-	"abcdefg",         // too short
-	"abcdefghi",       // extension of the first
-	"ABCDEFGH",        // case variant
-	"Abcdefg1",        // minimum length, three classes
-	"Abcdefg1!",       // extension
-	" abcdefgh",       // leading space
-	"abcdefgh ",       // trailing space
-	"pässwörd-ünï",    // multi-byte lower case
-	"密码密码密码Aa1",       // multi-byte, three classes
-	"Пароль123!",      // cyrillic upper/lower + digit + special
+	"abcdefgh",         // minimum length, one class
+	"abcdefg",          // too short
+	"abcdefghi",        // extension of the first
+	"ABCDEFGH",         // case variant
+	"Abcdefg1",         // minimum length, three classes
+	"Abcdefg1!",        // extension
+	" abcdefgh",        // leading space
+	"abcdefgh ",        // trailing space
+	"pässwörd-ünï",     // multi-byte lower case
+	"密码密码密码Aa1",        // multi-byte, three classes
+	"Пароль123!",       // cyrillic upper/lower + digit + special
 	"correct horse 9B", // spaces inside
-	pw72,              // maximum length
-	pw72[:71] + "?",   // maximum length, last byte differs
-	pw72 + "X",        // too long (73)
-	pw72[:71],         // 71 bytes: prefix of the maximum one
-	"",                // empty
+	pw72,               // maximum length
+	pw72[:71] + "?",    // maximum length, last byte differs
+	pw72 + "X",         // too long (73)
+	pw72[:71],          // 71 bytes: prefix of the maximum one
+	"",                 // empty
 }
 
 type pwOp struct {
@@ -211,7 +211,7 @@ func TestPropPasswords(t *testing.T) {
 	const name = "TestPropPasswords"
 	rec.Assume("passwords: both services (strong-password option off/on) share one store; an empty password is never passed to the service with the strong option (IsPasswordStrong divides by len(password): ComparePassword(\"\") panics there — reported separately, not a wrong verdict); candidates that are bcrypt-key-equivalent to the current password are the signature of known finding " + keyBcryptEquv)
 	const bcryptBudget = 5
-	rec.Check(t, 11, 400, func(t *rapid.T) {
+	rec.Check(t, 11, 150, func(t *rapid.T) {
 		ctx := context.Background()
 		f := newPwFix(t)
 		users := []*pwUser{{}, {}, {id: platform.ID(0xdead0001)}} // the third never exists
@@ -272,9 +272,15 @@ func TestPropPasswords(t *testing.T) {
 				if op.P == "" && strong {
 					op.Strong, strong = false, false
 				}
-				if reaches && bcryptEquiv(op.P, u.cur) && ev.KnownOpen(propID, keyBcryptEquv) {
+				// the listed finding covers, for ComparePassword, only candidates that pass its length
+				// bound (<= 72 bytes: the NUL form); a longer candidate with the same bcrypt key (a
+				// 72-byte password plus a suffix) is rejected by that bound and stays asserted
+				if reaches && bcryptEquiv(op.P, u.cur) && len(op.P) <= 72 && ev.KnownOpen(propID, keyBcryptEquv) {
 					rec.ExcludedKnown(keyBcryptEquv)
 					continue
+				}
+				if reaches && bcryptEquiv(op.P, u.cur) {
+					rec.Class("pw:compare:key-equivalent-but-too-long")
 				}
 				err := f.svc(strong).ComparePassword(ctx, u.id, op.P)
 				op.Err = errString(err)
@@ -410,4 +416,56 @@ func TestKnown_bcrypt_key_equivalence(t *testing.T) {
 	rec.Known(t, "TestKnown_bcrypt_key_equivalence", keyBcryptEquv, reproduced,
 		fmt.Sprintf("password set to \"abcdefgh\": ComparePassword(%q) returns %v (nil = a different password verifies); password set to a 72-byte string P: CompareAndSetPassword(old=P+\"X\", new) returns %v (nil = the password was changed with a wrong old password). bcrypt only uses the NUL-terminated password repeated cyclically over 72 key bytes", other, cmpErr, casErr),
 		map[string]any{"compare_err": errString(cmpErr), "cas_err": errString(casErr)})
+}
+
+// TestPropPasswordLengthBound: bcrypt reads at most 72 bytes of a password. For a password of
+// (nearly) that length, the check must still succeed for that password only: not for a longer
+// candidate that merely starts with it, not for a shorter prefix of it. (3 bcrypt operations per
+// case; the candidates here are outside the listed finding bcrypt-key-equivalence, which is about
+// the NUL form for ComparePassword and about CompareAndSetPassword.)
+func TestPropPasswordLengthBound(t *testing.T) {
+	const name = "TestPropPasswordLengthBound"
+	rec.Check(t, 20, 120, func(t *rapid.T) {
+		ctx := context.Background()
+		f := newPwFix(t)
+		u := &influxdb.User{Name: "user0"}
+		if err := f.weak.CreateUser(ctx, u); err != nil {
+			t.Fatalf("create user: %v", err)
+		}
+		n := rapid.SampledFrom([]int{72, 72, 72, 71, 70, 64}).Draw(t, "len")
+		p := rapid.StringOfN(rapid.RuneFrom([]rune("abcdefghijklmnopqrstuvwxyzABCXYZ0189!_ -")), n, n, n).Draw(t, "pw")
+		var ops []pwOp
+		fail := func(key, detail string) { rec.Fail(t, name, key, detail, ops) }
+		if err := f.weak.SetPassword(ctx, u.ID, p); err != nil {
+			ops = append(ops, pwOp{Op: "set", P: p, Err: err.Error()})
+			fail("set-valid-password-rejected", fmt.Sprintf("SetPassword of a %d-byte password failed: %v", n, err))
+		}
+		ops = append(ops, pwOp{Op: "set", P: p})
+		strong := rapid.Bool().Draw(t, "strong") && policyOK(p, true)
+		var cand, kind string
+		switch rapid.SampledFrom([]int{0, 0, 0, 1, 2, 3}).Draw(t, "kind") {
+		case 0:
+			cand, kind = p+rapid.StringOfN(rapid.RuneFrom([]rune("xX9 !")), 1, 8, -1).Draw(t, "suffix"), "longer-with-current-as-prefix"
+		case 1:
+			cand, kind = p+p, "current-twice"
+		case 2:
+			cand, kind = p[:len(p)-rapid.IntRange(1, 3).Draw(t, "cut")], "prefix-of-current"
+		default:
+			cand, kind = p, "current"
+		}
+		err := f.svc(strong).ComparePassword(ctx, u.ID, cand)
+		ops = append(ops, pwOp{Op: "compare", P: cand, Strong: strong, Err: errString(err)})
+		switch {
+		case cand != p && err == nil:
+			fail("wrong-password-verifies", fmt.Sprintf("password of %d bytes set; ComparePassword succeeded for a %d-byte candidate (%s)", len(p), len(cand), kind))
+		case cand == p && err != nil:
+			fail("current-password-rejected", fmt.Sprintf("ComparePassword of the %d-byte password most recently set = %v", len(p), err))
+		}
+		rec.Eval()
+		rec.Class("pwlen:" + kind + ":" + okClass(err))
+		if cand != p && len(p) == 72 && len(cand) > 72 {
+			rec.NonTrivial(fmt.Sprintf("%d|%s|%d", len(p), kind, len(cand)))
+			rec.Class("pwlen:72-byte-password-and-longer-candidate")
+		}
+	})
 }
